@@ -527,6 +527,14 @@ def gen_trees(seed, count, maxdepth):
     stackish += [("rule", 3, ("choice", [("restore_on_err", ("chain", [("push", ("rule", 1, ("charby", "alpha"))), ("str", b":"), ("rule", 2, ("charby", "alpha"))])), ("rule", 2, ("rep", ("charby", "alpha")))])),
                  ("seq", [("opt", ("restore_on_err", ("chain", [("rule", 1, ("charby", "any")), ("push_lit", b"x"), ("str", b"!")]))), ("rule", 2, ("charby", "any"))]),
                  ("seq", [("rep", ("restore_on_err", ("chain", [("rule", 1, ("str", b"a")), ("drop",)]))), ("opt", ("rule", 2, ("str", b"a")))])]
+    # a failing sequence that leaves position, queue length and stack *depth* as they were but has replaced the stack's contents
+    # (drop + push), absorbed by ? | * ! and followed by something that reads the stack
+    for body in (("seq", [("drop",), ("push_lit", b"b"), ("str", b"!")]), ("seq", [("drop",), ("drop",), ("push_lit", b"b"), ("push_lit", b"c"), ("eoi",), ("str", b"!")]),
+                 ("seq", [("look", True, ("seq", [("drop",), ("push_lit", b"b")])), ("drop",), ("push", ("opt", ("str", b"!"))), ("str", b"!")])):
+        stackish += [("seq", [("push_lit", b"a"), ("push_lit", b"a"), ("opt", body), ("peek_slice", 0, None, False)]),
+                     ("seq", [("push_lit", b"a"), ("push_lit", b"a"), ("choice", [body, ("match_peek",)]), ("opt", ("pop",))]),
+                     ("seq", [("push", ("charby", "any")), ("push", ("charby", "any")), ("look", False, body), ("match_pop",)]),
+                     ("seq", [("push_lit", b"a"), ("push_lit", b"a"), ("rep", ("seq", [("str", b"a"), body])), ("peek",)])]
     stackish += [("pop",), ("peek",),
                  ("rep", ("rule", 1, ("str", b"a"))), ("opt", ("rule", 1, ("seq", [("str", b"a"), ("str", b"b")]))),
                  ("look", False, ("rule", 1, ("str", b"a"))), ("rule", 1, ("seq", [("str", b"a"), ("rep", ("rule", 2, ("range", 0x61, 0x7a)))])),
